@@ -23,7 +23,9 @@ def main():
     atexit.register(build.cleanup)
     t0 = time.time()
     mod = importlib.import_module("checks." + pid.lower())
-    evpath = os.path.join(HERE, "evidence", pid + ".json")
+    evdir = os.environ.get("VERIF_EVIDENCE_DIR") or os.path.join(HERE, "evidence")
+    os.makedirs(evdir, exist_ok=True)
+    evpath = os.path.join(evdir, pid + ".json")
     try: os.unlink(evpath)
     except OSError: pass
     try:
@@ -44,9 +46,10 @@ def main():
         print("[%s] %-48s %-12s %6.2fs %s" % (pid, it.get("harness"), it.get("status"), it.get("wall_s", 0), it.get("why", "")))
     rc = 0
     if viols:
-        os.makedirs(os.path.join(HERE, "replays", pid), exist_ok=True)
+        rdir = os.path.join(os.environ.get("VERIF_EVIDENCE_DIR") or HERE, "replays", pid)
+        os.makedirs(rdir, exist_ok=True)
         for i, v in enumerate(viols):
-            rp = os.path.join(HERE, "replays", pid, "%s.json" % (v.get("harness", "h%d" % i).replace("/", "_")))
+            rp = os.path.join(rdir, "%s.json" % (v.get("harness", "h%d" % i).replace("/", "_").replace(" ", "_")))
             json.dump(v, open(rp, "w"), indent=1, default=str)
             print("VIOLATION property=%s replay=%s" % (pid, rp))
         rc = 1
